@@ -193,9 +193,12 @@ StepF(S) ==
                               fired |-> <<>>, calls |-> <<"begin">>, gone |-> {}, born |-> {}], S)
         \* Model.end_round runs after every agent has acted and BEFORE the statistics of the step are collected: what it changes
         \* (planned here: the state / value of one agent) is part of the population the statistics describe
-        endTodo == SelectSeq(S.plan, LAMBDA x : x.snd = ModelId /\ x.k = S.step)
+        endTodo == SelectSeq(S.plan, LAMBDA x : x.snd = ModelId /\ x.kind # "bsend" /\ x.k = S.step)
         regEnd == EndPlans(endTodo, A.reg)
-        fired  == A.fired                                         \* in agent order, then plan order
+        \* events the model itself sends from begin_round: enqueued after this step's events were distributed, so they are
+        \* handled in the next step like the ones agents send while acting, and they precede those in the queue
+        bplans == SelectSeq(S.plan, LAMBDA x : x.snd = ModelId /\ x.kind = "bsend" /\ x.k = S.step)
+        fired  == [i \in DOMAIN bplans |-> bplans[i].eid] \o A.fired      \* begin_round first, then agent order, then plan order
         evs2   == [e \in DOMAIN S.evs |->
                      IF \E k \in DOMAIN fired : fired[k] = e
                      THEN [S.evs[e] EXCEPT !.at = S.step + 1,
@@ -271,6 +274,13 @@ Reset ==             \* Model.reset
     /\ UNCHANGED <<nextId, mq, step, evs, nsent, plan, handled, alive, dt>>
     /\ Log([op |-> "Reset", q |-> Q1])
 
+\* model.scheduler is replaced by a fresh scheduler between two steps (ScenarioManagerHybrid.instantiate_model does it for every
+\* scenario it builds): the queue - the delayed events still counting down included - belongs to the model, so nothing changes
+NewScheduler ==
+    /\ "NewScheduler" \in Ops
+    /\ UNCHANGED <<agents, nextId, tmap, mq, step, evs, nsent, plan, handled, alive, dt>>
+    /\ Log([op |-> "NewScheduler"])
+
 SetState(id, st) ==
     /\ "SetState" \in Ops /\ id \in Ids(agents) /\ agents[Pos(id, agents)].st # st
     /\ agents' = [agents EXCEPT ![Pos(id, agents)].st = st]
@@ -301,6 +311,14 @@ Plan(snd, rcv, name, d, k) ==   \* agent snd will send the event from inside its
     /\ alive' = alive @@ ((Len(evs) + 1) :> "pending")
     /\ UNCHANGED <<agents, nextId, tmap, mq, step, nsent, handled, dt>>
     /\ Log([op |-> "Plan", eid |-> Len(evs) + 1, snd |-> snd, rcv |-> rcv, name |-> name, d |-> d, k |-> k])
+
+PlanBegin(rcv, name, d, k) ==   \* Model.begin_round will send the event in step index k
+    /\ "PlanBegin" \in Ops /\ Len(evs) < MaxEvents /\ k >= step
+    /\ evs' = Append(evs, NewEv(rcv, name, d, None, 0))
+    /\ plan' = Append(plan, [snd |-> ModelId, kind |-> "bsend", eid |-> Len(evs) + 1, k |-> k, arg |-> None])
+    /\ alive' = alive @@ ((Len(evs) + 1) :> "pending")
+    /\ UNCHANGED <<agents, nextId, tmap, mq, step, nsent, handled, dt>>
+    /\ Log([op |-> "PlanBegin", eid |-> Len(evs) + 1, rcv |-> rcv, name |-> name, d |-> d, k |-> k])
 
 PlanDel(snd, victim, k) ==      \* agent snd will call model.delete_agent(victim) from inside its act() in step k
     /\ "PlanDel" \in Ops /\ snd \in Ids(agents) /\ k >= step /\ Len(plan) < MaxPlans
@@ -385,6 +403,7 @@ DoSetState  == \E id \in 0..(nextId - 1), st \in States : SetState(id, st)
 DoSetVal    == \E id \in 0..(nextId - 1), v \in Vals : SetVal(id, v)
 DoSend      == \E rcv \in 0..nextId, n \in Names, d \in Delays : Send(rcv, n, d)
 DoPlan      == \E snd \in 0..(nextId - 1), rcv \in 0..nextId, n \in Names, d \in Delays, k \in step..(step + PlanAhead) : Plan(snd, rcv, n, d, k)
+DoPlanBegin == \E rcv \in 0..nextId, n \in Names, d \in Delays, k \in step..(step + PlanAhead) : PlanBegin(rcv, n, d, k)
 DoPlanDel   == \E snd \in 0..(nextId - 1), victim \in 0..(nextId - 1), k \in step..(step + PlanAhead) : PlanDel(snd, victim, k)
 DoPlanNew   == \E snd \in 0..(nextId - 1), ty \in Types, k \in step..(step + PlanAhead) : PlanNew(snd, ty, k)
 DoPlanSet   == \E snd \in 0..(nextId - 1), k \in step..(step + PlanAhead) :
@@ -395,7 +414,7 @@ DoPlanEnd   == \E target \in 0..(nextId - 1), k \in step..(step + PlanAhead) :
 DoRun       == \E rs \in RunSpecs : Run(rs)
 
 Next == DoCreate \/ DoDelete \/ DoConfigure \/ Reset \/ DoSetState \/ DoSetVal \/ DoSend \/ DoPlan
-        \/ DoPlanDel \/ DoPlanNew \/ DoPlanSet \/ DoPlanEnd \/ RunStep \/ DoRun
+        \/ NewScheduler \/ DoPlanBegin \/ DoPlanDel \/ DoPlanNew \/ DoPlanSet \/ DoPlanEnd \/ RunStep \/ DoRun
 
 Spec == Init /\ [][Next]_vars
 
